@@ -331,31 +331,83 @@ func checkHelperContractAt(c *Ctx, fn *ssa.Function, cbIdx int, name string, dep
 			commitInstrs = append(commitInstrs, s.Instr)
 		}
 	}
-	for _, r := range returnsOf(fn) {
-		if !dominatesInstr(call, r.Ret) {
+	// helper calls that embody "commit iff the callback's error is nil" (`return pending.writeUnless(fn(pending))`)
+	isCommit := map[ssa.Instruction]bool{}
+	for _, ci := range commitInstrs {
+		isCommit[ci] = true
+	}
+	for _, s := range sitesOf(fn) {
+		if s.Callee == nil || pkgRelOf(s.Callee) != pkgRelOf(fn) {
 			continue
 		}
-		onErr := false
-		for _, f := range factsAt(r.Ret) {
-			if b, ok := f.Cond.(*ssa.BinOp); ok {
-				isNilCmp := (stripIface(b.X) == ssa.Value(call) && isNilConst(b.Y)) || (stripIface(b.Y) == ssa.Value(call) && isNilConst(b.X))
-				if isNilCmp && ((b.Op.String() == "!=" && f.Pos) || (b.Op.String() == "==" && !f.Pos)) {
-					onErr = true
+		for k, a := range s.Args() {
+			if stripIface(a) == ssa.Value(call) && k < len(s.Callee.Params) && commitsWhenNil(s.Callee, k) {
+				isCommit[s.Instr] = true
+				commits++
+			}
+		}
+	}
+	// path search from the callback call: following only the edges on which the callback's error may be nil, no return is
+	// reached before a commit
+	{
+		type pos struct {
+			b *ssa.BasicBlock
+			i int
+		}
+		seen := map[*ssa.BasicBlock]bool{}
+		var q []pos
+		q = append(q, pos{call.Block(), instrIndex(call) + 1})
+		badRet := ""
+		for len(q) > 0 {
+			cur := q[0]
+			q = q[1:]
+			stopped := false
+			for k := cur.i; k < len(cur.b.Instrs) && !stopped; k++ {
+				in := cur.b.Instrs[k]
+				if isCommit[in] {
+					stopped = true
+					break
+				}
+				switch x := in.(type) {
+				case *ssa.Return:
+					badRet = p.Pos(posOf(x, fn))
+					stopped = true
+				case *ssa.If:
+					nilSide := -1 // successor index on which the callback's error is nil
+					if b, ok := x.Cond.(*ssa.BinOp); ok {
+						isNilCmp := (stripIface(b.X) == ssa.Value(call) && isNilConst(b.Y)) || (stripIface(b.Y) == ssa.Value(call) && isNilConst(b.X))
+						if isNilCmp && b.Op.String() == "==" {
+							nilSide = 0
+						} else if isNilCmp && b.Op.String() == "!=" {
+							nilSide = 1
+						}
+					}
+					for si, sb := range cur.b.Succs {
+						if nilSide >= 0 && si != nilSide {
+							continue
+						}
+						if !seen[sb] {
+							seen[sb] = true
+							q = append(q, pos{sb, 0})
+						}
+					}
+					stopped = true
+				case *ssa.Jump:
+					for _, sb := range cur.b.Succs {
+						if !seen[sb] {
+							seen[sb] = true
+							q = append(q, pos{sb, 0})
+						}
+					}
+					stopped = true
+				case *ssa.Panic:
+					stopped = true
 				}
 			}
 		}
-		if onErr {
-			continue
-		}
-		passed := false
-		for _, ci := range commitInstrs {
-			if dominatesInstr(ci, r.Ret) {
-				passed = true
-			}
-		}
-		if !passed {
+		if badRet != "" {
 			bad++
-			c.viol("helper-contract", name, p.Pos(posOf(r.Ret, fn)), "a return after a successful callback does not pass through the commit of the batch: what the callback wrote is dropped although the helper reports success")
+			c.viol("helper-contract", name, badRet, "a return after a successful callback does not pass through the commit of the batch: what the callback wrote is dropped although the helper reports success")
 		}
 	}
 	if commits == 0 && bad == 0 {
@@ -522,4 +574,51 @@ func outerCompensates(p *Prog, r AtomicRoot) bool {
 		}
 	}
 	return false
+}
+
+// commitsWhenNil: every return of h that is not on the `errParam != nil` branch passes through a Write/Commit call.
+func commitsWhenNil(h *ssa.Function, errParam int) bool {
+	if len(h.Blocks) == 0 {
+		return false
+	}
+	ep := ssa.Value(h.Params[errParam])
+	var commits []ssa.Instruction
+	for _, s := range sitesOf(h) {
+		nm := ""
+		if s.Method != nil {
+			nm = s.Method.Name()
+		} else if s.Callee != nil {
+			nm = s.Callee.Name()
+		}
+		if nm == "Write" || nm == "Commit" {
+			commits = append(commits, s.Instr)
+		}
+	}
+	if len(commits) == 0 {
+		return false
+	}
+	for _, r := range returnsOf(h) {
+		onErr := false
+		for _, f := range factsAt(r.Ret) {
+			if b, ok := f.Cond.(*ssa.BinOp); ok {
+				isNilCmp := (stripIface(b.X) == ep && isNilConst(b.Y)) || (stripIface(b.Y) == ep && isNilConst(b.X))
+				if isNilCmp && ((b.Op.String() == "!=" && f.Pos) || (b.Op.String() == "==" && !f.Pos)) {
+					onErr = true
+				}
+			}
+		}
+		if onErr {
+			continue
+		}
+		ok := false
+		for _, ci := range commits {
+			if dominatesInstr(ci, r.Ret) {
+				ok = true
+			}
+		}
+		if !ok {
+			return false
+		}
+	}
+	return true
 }
